@@ -80,7 +80,7 @@ class Inp:
             _SE[0] += 1
             n, st = len(v), _SE[0] % 4
             idx = (None if st == 0 else list(range(100 + _SE[0], 100 + _SE[0] + n)) if st == 1
-                   else pd.date_range("2020-01-01", periods=n, freq="D") + pd.Timedelta(days=_SE[0]) if st == 2
+                   else pd.date_range("2020-01-01", periods=n, freq="D") + pd.Timedelta(days=_SE[0] % 20000) if st == 2
                    else ["f%d" % j for j in range(n)])
             return pd.Series(v, dtype=dt, index=idx)
         m = np.array(v, dtype=dt).reshape(self.r, self.c)
